@@ -1,4 +1,7 @@
+#[cfg(not(brc20_prog_verif))]
 use std::collections::{HashMap, HashSet};
+#[cfg(brc20_prog_verif)]
+use crate::verif::simhash::{HashMap, HashSet};
 use std::error::Error;
 use std::hash::Hash;
 use std::path::Path;
@@ -185,14 +188,22 @@ where
             let key_bytes = key.encode_vec();
             let cache_bytes = cache.encode_vec();
             if cache.is_old(block_number) {
+                #[cfg(brc20_prog_verif)]
+                crate::verif::failpoint("cached.cache_db.delete")?;
                 self.cache_db.delete(&key_bytes)?;
             } else {
+                #[cfg(brc20_prog_verif)]
+                crate::verif::failpoint("cached.cache_db.put")?;
                 self.cache_db.put(&key_bytes, &cache_bytes)?;
             }
 
             if let Some(value) = cache.latest() {
+                #[cfg(brc20_prog_verif)]
+                crate::verif::failpoint("cached.db.put")?;
                 self.db.put(&key_bytes, &value.encode_vec())?;
             } else {
+                #[cfg(brc20_prog_verif)]
+                crate::verif::failpoint("cached.db.delete")?;
                 self.db.delete(&key_bytes)?;
             }
         }
